@@ -719,4 +719,8 @@ def is_consistent(C):
 
     Order as computed by :func:`ro`.
     """
-    return not C3.resolver(C, False, None).had_inconsistency
+    resolver = C3.resolver(C, False, None)
+    # An inconsistency among the direct bases is only discovered while
+    # merging, so the order has to be computed before the flag is read.
+    resolver.mro()
+    return not resolver.had_inconsistency
